@@ -4,7 +4,7 @@ from checklib import Scenario
 
 RULE = ("conventional single-line-value files (all 7 delimiter sets x 3 comment sets) with comment lines inserted at every "
         "insertion point; comment texts over the full printable alphabet with 0-3 further comment characters, delimiters, "
-        "quotes, brackets, with and without indentation; also under PYTHON_STYLE / JOIN_SAME_ENTRIES; the listing (sections, "
+        "quotes, brackets, with and without indentation, one in fifty between 9000 and 70000 bytes long; also under PYTHON_STYLE / JOIN_SAME_ENTRIES; the listing (sections, "
         "keys, values) of the file with the comment lines must equal that of the file without them, and both must be read "
         "successfully; the two files must also act alike as base and as override of a merge; distinct by bytes")
 
@@ -14,7 +14,12 @@ NASTY = [b"old=1 # disabled", b"# heading", b"a #b", b" [sec]", b"[x]", b"k = \"
 def comment_line(rng, cm):
     ind = rng.choice([b"", b"", b" ", b"\t", b"   "])
     c = bytes([rng.choice(cm)])
-    if rng.random() < 0.5: text = rng.choice(NASTY)
+    r = rng.random()
+    if r < 0.02:
+        # "whatever it contains" includes how much: longer than any line buffer a reader might use
+        unit = rng.choice([b"d=1 ", b"[x] ", b"k = v # ", b"word "])
+        text = unit * (rng.choice([9000, 16390, 20000, 70000]) // len(unit))
+    elif r < 0.5: text = rng.choice(NASTY)
     else:
         pool = grammar.TEXT + b" \t=:[]\"#;#;\"[]="
         text = bytes(rng.choice(pool) for _ in range(rng.randrange(0, 16)))
